@@ -223,6 +223,10 @@ def encode_rows(rows, dbl):
             elif kind == "extended":
                 ws.extend(C.text_words(val[0]))
                 ctl(val[1] if len(val[1]) == 4 else C.extended(val[1]))
+            elif kind == "extended_after_special":
+                # the stand-in cell was written with a special-character code (e.g. a-circumflex before A-circumflex)
+                ctl(C.special(val[0]))
+                ctl(val[1] if len(val[1]) == 4 else C.extended(val[1]))
             elif kind == "bs":
                 ctl(C.ctrl("BS"))
             elif kind == "ital_on":
@@ -293,6 +297,8 @@ def bounded(ctx, b):
     singles += [[(15, 0, to, False, [("text", "AB")])] for to in (1, 2, 3)]
     singles += [[(15, 0, 0, False, [("special", ch)])] for ch in C.SPECIAL.values() if ch != " "]
     singles += [[(15, 0, 0, False, [("text", "ab"), ("extended", ("a", code))])] for code in K.EXTENDED_CHARS]
+    singles += [[(15, 0, 0, False, [("text", "AB"), ("extended_after_special", (sp, code)), ("text", "CD")])]
+                for sp in ("â", "è", "®") for code in list(K.EXTENDED_CHARS)[:6]]
     programs = [(rows, dbl, True) for rows in singles for dbl in (False, True)]
     for _ in range(n):
         # (a quarter of the streams end right after the End Of Caption: the screen is never erased)
